@@ -419,7 +419,21 @@ def add_hostile_permissions(L, rng, args):
     byp = dict((nd['p'], nd) for nd in L.nodes)
     real = [a for a in args if a.get('rel') and a['rel'] in byp]
     variant = rng.choice(['ro-parent', 'ro-dir-entry', 'ro-trash-files',
-                          'ro-trash-info', 'ro-trash-dir', 'ro-tree'])
+                          'ro-trash-info', 'ro-trash-dir', 'ro-tree',
+                          'sticky-foreign'])
+    if variant == 'sticky-foreign' and real:
+        # somebody else's entry in somebody else's sticky, world-writable
+        # directory (/tmp-like): readable, but rename and unlink answer EPERM
+        a = rng.choice(real)
+        par = os.path.dirname(a['rel'])
+        if par in byp and byp[par].get('t') == 'd' and \
+                byp[a['rel']].get('t') in ('f', 'd'):
+            byp[par]['m'] = 0o1777
+            byp[par]['o'] = [54321, 54321]
+            for nd in L.nodes:
+                if nd['p'] == a['rel'] or nd['p'].startswith(a['rel'] + '/'):
+                    nd['o'] = [54322, 54322]
+            return variant
     if variant == 'ro-tree':
         # chmod -R a-w on the tree around it: the entry is a read-only
         # directory AND its parent is read-only (two obstacles, one cure each)
